@@ -31,7 +31,7 @@ def run(ctx, R, tier):
     R.rule("C10-R2", "only the known functions write Daemon.streaming_responses", floor=6)
     R.rule("C10-R3", "stream ids are fresh: derived from uuid.uuid4() in the same activation", floor=1)
     R.rule("C10-R4", "entry layout: 4-tuples; linger-start is 0 iff an owner is attached; disconnect handling selects entries by identity of the owning connection", floor=5)
-    R.rule("C10-R5", "housekeeping deletes only under a lifetime / linger comparison and under the housekeeper lock", floor=2)
+    R.rule("C10-R5", "housekeeping deletes only under a lifetime / linger comparison (directly or through a flag whose every definition is one), under the housekeeper lock; both expiries exist; the lifetime test does not depend on the linger state", floor=3)
     R.rule("C10-R6", "client iterator drops its proxy on StopIteration/GeneratorExit; close sends close_stream only while connected", floor=2)
 
     g = ctx.fn("Pyro5.server.DaemonObject.get_next_stream_item")
@@ -155,29 +155,66 @@ def run(ctx, R, tier):
     hk = ctx.fn("Pyro5.server.Daemon._housekeeping")
     hcfg = ctx.cfg(hk)
     hd = [st for st, t, k in stores_in(hk.node) if k == "del" and isinstance(t, ast.Subscript) and tbl_expr(t.value)]
-    if len(hd) != 2:
-        raise AnalysisError("_housekeeping: expected two expiry deletes, found %d" % len(hd))
-    for st in hd:
-        periods = set()
-        for n in walk_no_nested(hk.node):
-            if isinstance(n, ast.Assign) and isinstance(n.targets[0], ast.Name) and isinstance(n.value, ast.BinOp) and isinstance(n.value.op, ast.Sub) and \
-                    isinstance(n.value.left, ast.Call) and dotted(n.value.left.func) == "time.time":
-                periods.add(n.targets[0].id)
+    if not hd:
+        raise AnalysisError("_housekeeping: no expiry delete left")
+    hrd = ctx.rd(hk)
 
-        def expiry(cfgname):
-            def pred(atom, pol):
-                return pol is True and isinstance(atom, ast.Compare) and any("config.%s" % cfgname == unparse(x) for x in ast.walk(atom)) and \
-                    any(isinstance(o, (ast.Lt, ast.Gt, ast.LtE, ast.GtE)) for o in atom.ops) and \
-                    any(isinstance(x, ast.Name) and x.id in periods for x in ast.walk(atom))
-            return pred
-        which = None
-        for nm in ("ITER_STREAM_LIFETIME", "ITER_STREAM_LINGER"):
-            if all(hcfg.guarded(n, lambda e, nm=nm: edge_has_fact(e, expiry(nm))) for n in hcfg.nodes_for(st)):
-                which = nm
+    def is_period(expr, node):
+        """time.time() - x, `now - x` with now = time.time(), or a local holding such a difference"""
+        if isinstance(expr, ast.BinOp) and isinstance(expr.op, ast.Sub):
+            l = expr.left
+            if isinstance(l, ast.Call) and dotted(l.func) == "time.time":
+                return True
+            if isinstance(l, ast.Name):
+                return any(d.value is not None and isinstance(d.value, ast.Call) and dotted(d.value.func) == "time.time" for d in hrd.reaching(node, l.id))
+        if isinstance(expr, ast.Name):
+            return any(d.value is not None and d.kind == "assign" and is_period(d.value, d.node) for d in hrd.reaching(node, expr.id))
+        return False
+
+    def expiry_compare(expr, node, cfgname):
+        return isinstance(expr, ast.Compare) and any(unparse(x) == "config.%s" % cfgname for x in [expr.left] + expr.comparators) and \
+            any(isinstance(o, (ast.Lt, ast.Gt, ast.LtE, ast.GtE)) for o in expr.ops) and any(is_period(x, node) for x in [expr.left] + expr.comparators)
+
+    def expiry_fact(cfgname, test_node_of):
+        def pred(atom, pol):
+            if pol is not True:
+                return False
+            node = test_node_of.get(id(atom))
+            if node is None:
+                return False
+            if expiry_compare(atom, node, cfgname):
+                return True
+            if isinstance(atom, ast.Name):      # a flag variable: all its definitions are expiry comparisons
+                defs = hrd.reaching(node, atom.id)
+                return bool(defs) and all(d.kind == "assign" and d.value is not None and any(expiry_compare(d.value, d.node, c2) for c2 in ("ITER_STREAM_LIFETIME", "ITER_STREAM_LINGER"))
+                                          for d in defs) and any(expiry_compare(d.value, d.node, cfgname) for d in defs)
+            return False
+        return pred
+    test_node_of = {}
+    for n in hcfg.nodes:
+        if n.kind == "test":
+            for x in ast.walk(n.ast.test):
+                test_node_of[id(x)] = n
+    covered = set()
+    for i, st in enumerate(hd):
+        which = [nm for nm in ("ITER_STREAM_LIFETIME", "ITER_STREAM_LINGER")
+                 if all(hcfg.guarded(n, lambda e, nm=nm: edge_has_fact(e, expiry_fact(nm, test_node_of))) for n in hcfg.nodes_for(st))]
+        covered |= set(which)
         locked = in_lock_region(st, "self.housekeeper_lock") is not None
-        R.check(which is not None and locked, "C10-R5", "_housekeeping|delete@%s" % (which or "unguarded#%d" % hd.index(st)),
-                "delete happens only when a measured period exceeds the configured %s, under the housekeeper lock" % (which or "limit"), hk.loc(st),
+        R.check(bool(which) and locked, "C10-R5", "_housekeeping|delete#%d" % i,
+                "the delete happens only when a measured period exceeds the configured %s, under the housekeeper lock" % ("/".join(which) or "limit"), hk.loc(st),
                 "a stream can be dropped by housekeeping without its lifetime/linger period having passed (or outside the lock)")
+    R.check(covered == {"ITER_STREAM_LIFETIME", "ITER_STREAM_LINGER"}, "C10-R5", "_housekeeping|both-expiries", "both the lifetime and the linger expiry are applied", hk.loc(),
+            "expiry kinds applied: %s" % sorted(covered))
+    # the lifetime comparison is evaluated for every stream, whatever its linger state
+    life_nodes = [n for n in hcfg.nodes if n.kind in ("stmt", "test") and any(isinstance(x, ast.Compare) and expiry_compare(x, n, "ITER_STREAM_LIFETIME")
+                                                                         for e_ in __import__("verif.engine.cfg", fromlist=["stmt_exprs"]).stmt_exprs(n) for x in ast.walk(e_))]
+
+    def linger_state(atom, pol):
+        return any(isinstance(x, ast.Subscript) and isinstance(x.slice, ast.Constant) and x.slice.value == 2 for x in ast.walk(atom))
+    ok = bool(life_nodes) and not any(hcfg.guarded(n, lambda e: edge_has_fact(e, linger_state)) for n in life_nodes)
+    R.check(ok, "C10-R5", "_housekeeping|lifetime-independent-of-linger", "the lifetime test is applied to every stream, lingering or not", hk.loc(life_nodes[0].ast) if life_nodes else hk.loc(),
+            "the lifetime comparison is evaluated only for streams in a particular linger state: a stream whose client went away outlives its configured lifetime")
 
     # ---------------------------------------------------------------- R6
     dob = p.cls("Pyro5.server.DaemonObject")
